@@ -261,9 +261,21 @@ class Heap:
                z3.ForAll([u, v], z3.Implies(self.has_edge(g, u, v), z3.And(self.has_node(g, u), self.has_node(g, v))),
                          patterns=[self.has_edge(g, u, v)]),
                z3.ForAll([i], z3.Implies(z3.And(0 <= i, i < eln),
-                                         self.has_edge(g, T_EDGE.field(earr[i], 0), T_EDGE.field(earr[i], 1))),
+                                         z3.And(self.has_edge(g, T_EDGE.field(earr[i], 0), T_EDGE.field(earr[i], 1)),
+                                                self.get('eidx')[g][T_EDGE.field(earr[i], 0)][T_EDGE.field(earr[i], 1)] == i)),
                          patterns=[earr[i]]),
+               # every edge sits at its index in the edge list (in one of the two orientations)
+               z3.ForAll([u, v], z3.Implies(self.has_edge(g, u, v), z3.And(
+                   self.get('eidx')[g][u][v] == self.get('eidx')[g][v][u],
+                   0 <= self.get('eidx')[g][u][v], self.get('eidx')[g][u][v] < eln,
+                   z3.Or(earr[self.get('eidx')[g][u][v]] == T_EDGE.mk(u, v), earr[self.get('eidx')[g][u][v]] == T_EDGE.mk(v, u)))),
+                   patterns=[self.get('eidx')[g][u][v]]),
                ]
+        # undirected graph: edge attributes are the same in both orientations
+        for a in _EATTR_SORTS:
+            eh, ev = self.get('eh:' + a)[g], self.get('ev:' + a)[g]
+            out.append(z3.ForAll([u, v], z3.And(eh[u][v] == eh[v][u], ev[u][v] == ev[v][u]),
+                                 patterns=[eh[u][v], ev[u][v]]))
         return out
 
 
